@@ -5,7 +5,7 @@ from .core import Check, tlc, run_sweeps, validate
 from .shapes import *
 from .checks_codes import _collect, _seed_of, _finish_codes, _bg, _join, sweep_cmd
 
-LEGACY_VALUES = [None, "", "0", "1", "yes"]
+LEGACY_VALUES = [None, "", "0", "1", "yes", "00", "01"]
 
 
 def wire_configs(thorough):
@@ -44,7 +44,7 @@ def c07():
     tot = [0] * 14
     own = ["C07", "C08 fragment length", "fault", "create failed"]
     sample_files = []
-    for li, leg in enumerate(LEGACY_VALUES if thorough else [None, "1", "0"]):
+    for li, leg in enumerate(LEGACY_VALUES if thorough else [None, "1", "0", "00"]):
         cmds = ["layout"]
         for ci, (be, k, m, hd) in enumerate(wire_configs(thorough)):
             a = align(be, k)
@@ -82,7 +82,7 @@ def c07():
         "memcmp, checksum types 1 and 2, legacy-CRC switch values %s; compile-time sizeof/offsetof of the header; "
         "non-trivial = encode events whose bytes were all compared" %
         (len(wire_configs(thorough)), "dense" if thorough else "dense for three configurations, class boundaries + stride 7 otherwise",
-         LEGACY_VALUES if thorough else [None, "1", "0"]),
+         LEGACY_VALUES if thorough else [None, "1", "0", "00"]),
         ["TLC", "harness bitwise CRC for payloads > 256 bytes", "ASan/UBSan", "reference ISA-L plug-in"], exhaustive=False)
 
 
